@@ -22,13 +22,13 @@ const techFold = "conditional constant propagation over go/ssa with the paramete
 var properties = map[string]*propDef{
 	"C01": {
 		Rules:       []string{"APPLY", "TAB-NOTE", "TAB-DEGREE", "STATE", "TAB-NOTATION", "TAB-CHORDS", "TAB-ATTRS", "TAB-DEFAULTS", "EXTENDS", "PLAYLOOP", "NOTE", "OPT", "LOOKUP", "OVERRIDE", "NARROW", "BUILDER", "WIRE"},
-		Technique:   "affine-form dataflow on play.Key.Apply (pitch = 60 + tonic + degree + attribute / + base - 12) plus " + techTab,
+		Technique:   "affine-form dataflow on play.Key.Apply (pitch = 60 + tonic + degree + attribute / + base - 12) plus " + techTab + "; the dictionary through the builder to the pitches (130 chords), a made-up deep dictionary, the flag overrides on every combination of given and omitted flags and `crd write` from the instances to the tracks decided by " + techFold,
 		Explanation: "the pitch arithmetic as an affine identity of Key.Apply (exactly one bass emission MiddleC+key+degree+base-12 and one tone emission MiddleC+key+degree+attribute per attribute, nothing else; every failed lookup is an error); every row of the letter, accidental, interval-size, chord and attribute tables against a first-principles specification, including the size algorithm for 1..64 x 7 qualities on the extracted model; MiddleC folds to 60 and the default bass to a unison; `extends` is inherited parent-first; the key in force is the one applied by update() before getKey() in the same iteration; flags override instance 0 only; one note-on per key.",
 		NotDecided:  "that the control flow of Degree.simpleSemitone implements the algorithm whose tables and tuples were extracted (the search loop itself is not proved); uint8 wrap-around outside the MIDI range (excluded by the property's premise); everything inside gomidi.",
 	},
 	"C02": {
 		Rules:       []string{"TICKS", "PENDING", "NOTE", "PLAYLOOP", "OPMAP", "TRACKADD", "TRACKCOUNT"},
-		Technique:   techPath + ": rounding idiom, pending-delta typestate of every emitter, on/off loop structure",
+		Technique:   techPath + ": rounding idiom, pending-delta typestate of every emitter, on/off loop structure; the MIDI writer on a scripted history per track count and `crd write` from the instances to the tracks decided by " + techFold,
 		Explanation: "ticks = uint32(Round(quarterTicks x value)) by shape, quarterTicks and the header division both derived from the constructor's clock, the value is the sum over all duration fractions starting at 0; every emitting method consumes the pending delta exactly once before its first emission and gives later ops 0 or newTicks(value); Rest only accumulates; Close carries the pending rest; all note-ons of a chord precede all its note-offs, the first op of each phase carries the time; each op hands its own delta to gomidi; instances are visited in order.",
 		NotDecided:  "floating-point error of the sum of Num/Denom against exact rationals (needs values); absence of uint32 overflow (excluded below 2^28 by the quantifier); gomidi's delta encoding.",
 	},
@@ -40,7 +40,7 @@ var properties = map[string]*propDef{
 	},
 	"C04": {
 		Rules:       []string{"GEN-YACC", "TOKENS", "LEXMODE", "PARSEERR", "EOFPRED", "UNDERSCORE", "ERRDROP", "ERRFLOW", "RECUR", "IOLAYER", "WIRE"},
-		Technique:   "goyacc regeneration with AST comparison, token-set agreement between grammar and lexer, lexer-mode typestate on SSA, the lexer's rune -> token decision and digit class by folding ScanFunc / scanDigits with Peek() bound to probe runes, constant folding of loop predicates at EOF",
+		Technique:   "goyacc regeneration with AST comparison, token-set agreement between grammar and lexer, lexer-mode typestate on SSA, the lexer's rune -> token decision and digit class by folding ScanFunc / scanDigits with Peek() bound to probe runes, the scanner driven over a corpus of 114 texts on a modelled reader (token sequences against the checker's own reading of the notation), constant folding of loop predicates at EOF",
 		Explanation: "the shipped parser is AST-equal to what goyacc generates from chords.y and the grammar has 0 conflicts (so, trusting goyacc, it accepts exactly L(chords.y) over token strings); every terminal the rules use is produced by the lexer and nothing undeclared is; white space is discarded before every token, `;` skips to end of line, `{`/`}` and `_` switch the lexer modes and the modes are cleared again; a parser failure cannot be swallowed: parseText returns the lexer's error and every caller tests it before touching the tree (default reductions may store a result for a text that is then rejected); every lexer loop predicate is false at end of input, so a text cut inside a symbol, comment or metadata run terminates and is rejected; the grammar actions list each field from the right position.",
 		NotDecided:  "that the rune classes of scanSymbol / scanMetadata match an external description (the code is the documentation there); bounded-exhaustive acceptance against an independent recogniser.",
 	},
@@ -94,7 +94,7 @@ var properties = map[string]*propDef{
 	},
 	"C13": {
 		Rules:       []string{"TAB-KEYSIG", "SCALEWIRE", "TAB-REGEX", "OPT", "ERRFLOW", "OPMAP", "TAB-DIATONIC", "PLAYLOOP", "WIRE"},
-		Technique:   techTab + ": 28 signature rows against signatures derived from the step patterns",
+		Technique:   techTab + ": 28 signature rows against signatures derived from the step patterns; op.NewScale on all 42 key spellings, `info key describe` from the scale to the report and the key signature events of a piece that changes key five times by " + techFold,
 		Explanation: "every row of the signature table equals the signature derived by walking the major / natural-minor step pattern from the tonic (not copied from a table); the 15 major and 13 minor keys exist; order of flats B E A D G C F by stacking fifths; flats take the first n, sharps the last n; the tonic-to-ring-index table; altered letters of every row equal the derived scale's; NewScale applies a row as stated and refuses keys without a row.",
 		NotDecided:  "NewScale's output as a computed value (it is the composition of checked tables with structurally checked wiring).",
 	},
@@ -106,7 +106,7 @@ var properties = map[string]*propDef{
 	},
 	"C15": {
 		Rules:       []string{"TAB-DEGREE", "STATE", "TAB-NOTATION", "TAB-NOTE", "ADDDEGREE", "RECUR", "SCHEMA", "WIRE"},
-		Technique:   techTab + ": 14-row size table; note.Degree.Semitone on 8 qualities x numbers 0..64 (both visiting orders of its table), Semitone.Octave / WithoutOctave, Accidental.Semitone by " + techFold + "; adjustment tuples, octave constants and model agreement for 1..64 x 7 when the size function does not fold",
+		Technique:   techTab + ": 14-row size table; note.Degree.Semitone on 8 qualities x numbers 0..64 (both visiting orders of its table), Semitone.Octave / WithoutOctave, Accidental.Semitone by " + techFold + "; adjustment tuples, octave constants and model agreement for 1..64 x 7 when the size function does not fold" + "; `info attr describe` and `info chord describe` from the dictionary to the report (2,952 descriptions) by " + techFold,
 		Explanation: "the size table row by row, the four quality-adjustment tuples, the octave constants (7 numbers, 12 semitones), and agreement of the extracted tables + documented algorithm with the specification on size and validity for numbers 1..64 x 7 qualities; notation marks and the parser's candidate list (equal images, longest first); AddDegree adds root and interval, splits with floor semantics on 12 and tries natural, then the requested accidental, then the other; compound intervals are computed without unbounded recursion.",
 		NotDecided:  "ParseDegree's use of strings.Trim (it accepts some non-canonical spellings such as `3b`; the property only needs printed notation to read back); findNameBySemitone's search as a computation.",
 	},
